@@ -4,6 +4,9 @@
 #include "sim.h"
 #include <unistd.h>
 #include <fcntl.h>
+#ifdef GMSIM_MSAN
+#include <sanitizer/msan_interface.h>
+#endif
 #include <sys/mman.h>
 #include <sys/stat.h>
 #include <time.h>
@@ -75,6 +78,11 @@ const uint8_t *cap_map(int ch, size_t *len)
 ssize_t __wrap_send(int fd, const void *buf, size_t len, int flags)
 {
 	if (t_task < 0 || !net_is_simfd(fd)) return __real_send(fd, buf, len, flags);
+#ifdef GMSIM_MSAN
+	/* every byte an endpoint puts on the wire must have been written by someone: stale stack or heap bytes in a
+	 * message are both an information leak and "output that depends on unfilled randomness" */
+	__msan_check_mem_is_initialized(buf, len);
+#endif
 	return net_send(fd, buf, len);
 }
 
